@@ -1,6 +1,7 @@
 import ZipVerif.Tie.WriterSM
 import ZipVerif.Tie.RawCopy
 import ZipVerif.Tie.AlignedDev
+import ZipVerif.Tie.WriteAcc
 import ZipVerif.Props.C12
 /-
 COMPOSITION of the step-wise writer ties (`Tie/WriterSM.lean`) with the writer invariant
@@ -60,8 +61,18 @@ The vocabulary `Rs.S.switch_to` the generated methods call is PROVED equal to th
 The arguments of a `GCall` are generated values (`Gen.FileOptions`); `toCall` maps them with `optOf`.  The model's
 alphabet is larger (compression levels outside `i32`): those calls have no Rust counterpart.
 
-ASSUMED here (beside the vocabulary of `Tie/WriterSM.lean`): `hacc : ext.accept b = b.length` - the model's
-`Call.write` is `write_all` over an encoder that takes what it is offered (short-accepting encoders: C09);
+ASSUMED here (beside the vocabulary of `Tie/WriterSM.lean`): `AccOk ext.accept` - the encoder's `write` takes at
+most what it is offered and never answers `Ok(0)` to a non-empty buffer (`WriteZero` for `write_all`); NO LONGER
+assumed (helper t6w5): `ext.accept b = b.length`.  The model's `Call.write` is `write_all` over an encoder that
+takes everything; `Tie/WriteAcc.lean` proves the source's `write_all` loop over the translated `write` equal to it
+for every such accept function (`sim_write_all_gw`: the loop is `GW.writeAllLoop ext.accept`, helper c09b's
+one-call tie iterated; `writeData_acc_M`), with ONE exception that is a per-step side condition of `.write`
+(`NoRefusal` in `ArgFits`): an entry that crosses 4 GiB without `large_file` WHILE an encoder is in front of the
+sink - both sides refuse, but the source after the chunk that crossed the limit, the model after the whole buffer
+(different byte counter / CRC register in the closed writer: `Lemmas/ShortWrite.Refusal`).  `add_symlink` and
+`start_file_aligned` write through a storer / into the extra field, where the accept function is not consulted
+(`sim_add_symlink_acc`, `AlignedDev.sim_wr`); `raw_copy_file_rename` does so too, but its tie (`Tie/RawCopy.lean`)
+still takes the whole-accept hypothesis, which is therefore the side condition `DevFits` of `.rawCopy`;
 `dropFields`: what dropping the fields of a `ZipWriter` does after `Drop::drop` returned (flate2 / bzip2
 encoders finish into the sink from their destructors) is the model's `dropInner` - external code;
 `fresh` is the struct literal of `ZipWriter::new` written by hand (`new` is not translated).
@@ -172,7 +183,7 @@ def ArgFits (g : Gen.ZipWriter) : GCall → Prop
   | .startFile n _ => n.length < 18446744073709551616
   | .startFileWithExtraData n _ => n.length < 18446744073709551616
   | .write b => b.length < 9223372036854775808 ∧
-      g.stats.bytes_written.toNat + b.length < 18446744073709551616
+      g.stats.bytes_written.toNat + b.length < 18446744073709551616 ∧ NoRefusal g b
   | .addDirectory n _ => n.length + 1 < 18446744073709551616
   | .addSymlink n t _ => n.length < 18446744073709551616 ∧ t.length < 9223372036854775808
   | .rawCopy _ file n raw => n.length < 18446744073709551616 ∧ Delivers file.raw [raw]
@@ -187,6 +198,7 @@ for the other calls -/
 def DevFits (ext : Rs.S.Ext) (g : Gen.ZipWriter) (c : GCall) (fa : Option Nat) (d : Dev) : Prop :=
   match c with
   | .startFileAligned n o _ => AlignedDev.PosBound ext.toWExt n (optOf o) (absW g) fa d
+  | .rawCopy _ _ _ _ => ∀ b, ext.accept b = b.length
   | _ => True
 
 theorem sized_fresh : Sized fresh :=
@@ -305,7 +317,7 @@ theorem SimAt.toStep {α α' : Type} {φ : Except ZErr α × Gen.ZipWriter → E
 /-- **One covered call**: under the invariant, admissibility of the call and the `u64` side conditions the
 generated method is simulated by the model's dispatch of the call - on every fault index and device (`SimAt`: the
 statement of `Sim` for one run), for `start_file_aligned` on those that satisfy the position bound `DevFits`. -/
-theorem step_sim (ext : Rs.S.Ext) (hacc : ∀ b, ext.accept b = b.length) (c : GCall) (g : Gen.ZipWriter)
+theorem step_sim (ext : Rs.S.Ext) (hacc : AccOk ext.accept) (c : GCall) (g : Gen.ZipWriter)
     (hI : Inv (absW g)) (hadm : (toCall c).Admissible) (hfit : Fits g c) (fa : Option Nat) (d : Dev)
     (hdev : DevFits ext g c fa d) :
     AlignedDev.SimAt absRO (fun _ => True) (gstep ext c g) (step ext.toWExt (toCall c) (absW g)) fa d := by
@@ -317,7 +329,8 @@ theorem step_sim (ext : Rs.S.Ext) (hacc : ∀ b, ext.accept b = b.length) (c : G
   | startFileWithExtraData n o =>
     exact AlignedDev.SimAt.of_sim (Sim.toStep _ _ (sim_start_file_with_extra_data ext g n o hs.last ha htime) absRn_ok)
   | write b =>
-    exact AlignedDev.SimAt.of_sim (Sim.toStep _ _ (sim_write_all ext g b ha.1 ha.2 (hinv_of_inv g hI) hacc) (absR_ok _))
+    exact AlignedDev.SimAt.of_sim
+      (Sim.toStep _ _ (sim_write_all_acc ext hacc g b ha.1 ha.2.1 (hinv_of_inv g hI) ha.2.2) (absR_ok _))
   | endLocalStartCentral =>
     exact AlignedDev.SimAt.of_sim (Sim.toStep _ _ (sim_end_local_start_central ext g hs.last.extra) absRn_ok)
   | endExtraData =>
@@ -325,7 +338,8 @@ theorem step_sim (ext : Rs.S.Ext) (hacc : ∀ b, ext.accept b = b.length) (c : G
   | addDirectory n o =>
     exact AlignedDev.SimAt.of_sim (Sim.toStep _ _ (sim_add_directory ext g n o hs.last ha htime) (absR_ok _))
   | addSymlink n t o =>
-    exact AlignedDev.SimAt.of_sim (Sim.toStep _ _ (sim_add_symlink ext g n t o hs.last ha.1 ha.2 htime hacc) (absR_ok _))
+    exact AlignedDev.SimAt.of_sim
+      (Sim.toStep _ _ (sim_add_symlink_acc ext hacc g n t o hI hs.last ha.1 ha.2 hadm) (absR_ok _))
   | setComment c =>
     refine AlignedDev.SimAt.of_sim ?_
     simp only [gstep, toCall, step, tie_set_comment, map_pure]
@@ -342,7 +356,7 @@ theorem step_sim (ext : Rs.S.Ext) (hacc : ∀ b, ext.accept b = b.length) (c : G
     exact (Sim.of_erase (by rw [this]; rfl)).mono fun _ _ => trivial
   | rawCopy now file n raw =>
     exact AlignedDev.SimAt.of_sim
-      (Sim.toStep _ _ (sim_raw_copy_one ext now g file n raw hs.last ha.1 htime hacc ha.2) (absR_ok _))
+      (Sim.toStep _ _ (sim_raw_copy_one ext now g file n raw hs.last ha.1 htime hdev ha.2) (absR_ok _))
   | startFileAligned n o a =>
     exact SimAt.toStep _ _ (AlignedDev.sim_start_file_aligned_at ext hacc g hI hs.last n ha o hadm.1 hadm.2 a fa d hdev)
       absRn_ok
@@ -380,7 +394,7 @@ def FitsRun (ext : Rs.S.Ext) : List GCall → Gen.ZipWriter → Option Nat → D
 on every device and fault index, the side conditions holding along the run: the run of the GENERATED methods
 either stops with the `u64`-position panic `OVF`, or has the outcomes (up to the panic-site string), the
 final object and the final device of the model's `runCalls`. -/
-theorem grun_sim (ext : Rs.S.Ext) (hacc : ∀ b, ext.accept b = b.length) (calls : List GCall)
+theorem grun_sim (ext : Rs.S.Ext) (hacc : AccOk ext.accept) (calls : List GCall)
     (hadm : ∀ c ∈ calls, (toCall c).Admissible) :
     ∀ (g : Gen.ZipWriter), Inv (absW g) → ∀ (fa : Option Nat) (d : Dev), FitsRun ext calls g fa d →
       Out.panic Rs.S.OVF ∈ (grun ext calls g fa d).1 ∨
@@ -447,7 +461,7 @@ theorem grun_sim (ext : Rs.S.Ext) (hacc : ∀ b, ext.accept b = b.length) (calls
         | panic s' => right; exact ⟨rfl, rfl, rfl⟩
 
 /-- The fresh-writer instance: `runCalls … WState.init`, the form the archive-level theorems use. -/
-theorem grun_sim_fresh (ext : Rs.S.Ext) (hacc : ∀ b, ext.accept b = b.length) (calls : List GCall)
+theorem grun_sim_fresh (ext : Rs.S.Ext) (hacc : AccOk ext.accept) (calls : List GCall)
     (hadm : ∀ c ∈ calls, (toCall c).Admissible) (fa : Option Nat) (d : Dev)
     (hfits : FitsRun ext calls fresh fa d) :
     Out.panic Rs.S.OVF ∈ (grun ext calls fresh fa d).1 ∨
@@ -459,7 +473,7 @@ theorem grun_sim_fresh (ext : Rs.S.Ext) (hacc : ∀ b, ext.accept b = b.length) 
 
 /-- `Props.C12.writer_no_panic`, transferred: no call of the GENERATED run panics, other than by `OVF`,
 when the run ends on a device in the `u64` range. -/
-theorem grun_no_panic (ext : Rs.S.Ext) (hacc : ∀ b, ext.accept b = b.length) (calls : List GCall)
+theorem grun_no_panic (ext : Rs.S.Ext) (hacc : AccOk ext.accept) (calls : List GCall)
     (hadm : ∀ c ∈ calls, (toCall c).Admissible) (fa : Option Nat) (d : Dev)
     (hfits : FitsRun ext calls fresh fa d)
     (hd : Props.C12.Dev.InRange (grun ext calls fresh fa d).2.2) :
